@@ -324,6 +324,7 @@ FK_Disp == <<I(1), Str("x")>>
 FK_Presets == {Dv([k \in {"A", "S"} |-> IF k = "A" THEN I(9) ELSE Dv([j \in {"X"} |-> I(8)])]), Dv([k \in {"A"} |-> I(4)])}
 FK_Cbs == {"cb"}
 FK_Effs == {<<>>, <<"e1">>}
+FKL_Effs == {<<>>, <<"le">>, <<"e1", "le">>}      \* "le": a LogEffect (family logeffects, C16)
 FK_Caches == {"mem", "none"}
 FK_MapPaths == {pA, pSX}
 FK_Leaves == <<[p |-> pA, vals |-> {I(1), Str("x")}, extra |-> FALSE],
